@@ -601,9 +601,26 @@ pub fn generate(seed: u64, tier: &str, property: &str) -> RegScenario {
                             its.push((format!("tpl/{}", nm), Some(nm)));
                         }
                     }
-                    h.push(Op::AddFiles { items: its, faults: vec![] }, Some("bad-file-in-batch"), false);
+                    let dup = rng.chance(1, 2);
+                    if dup {
+                        // the same name twice in the batch, from two different files, before the
+                        // unusable one: the roll-back must bring back what was registered before
+                        // the call, not the first of the two
+                        let nm = h.name(picks[rng.below(picks.len())]);
+                        for k in 0..2 {
+                            let dp = format!("tpl/zz_dup{}", k);
+                            h.push(Op::DiskWrite { path: dp.clone(), hex: hx(&format!("dup {} of {}", k, nm)) }, None, false);
+                            its.insert(k.min(its.len()), (dp, Some(nm.clone())));
+                        }
+                    }
+                    h.push(Op::AddFiles { items: its, faults: vec![] }, Some(if dup { "bad-file-in-batch-with-duplicate-names" } else { "bad-file-in-batch" }), false);
                     for k in 0..3 {
                         h.push(Op::DiskDelete { path: format!("tpl/zz_bad{}", k) }, None, false);
+                    }
+                    if dup {
+                        for k in 0..2 {
+                            h.push(Op::DiskDelete { path: format!("tpl/zz_dup{}", k) }, None, false);
+                        }
                     }
                 }
                 7 => {
